@@ -68,10 +68,16 @@ def gen(tier, seed):
         ops = [("shift", rand_q(rnd)), ("shift", F(rnd.randint(-10 ** 12, 10 ** 12), 10 ** 9 + 7)),
                ("scale", F(rnd.randint(1, 30), rnd.randint(1, 9))), ("scale", rnd.choice((F(0), F(-1), F(-2, 3)))),
                ("normalize", None)]
+        # knots moved far from the origin (a timestamp, +-1e10, 2^40 + 1/3): distinct knots must stay distinct
+        far = ("shift", rnd.choice((F(1700000000), F(10 ** 10), F(-10 ** 10), F(2 ** 40) + F(1, 3), F(-987654321012, 7))))
         if v.get("force_normalize"):
             ops = [ops[4], ops[rnd.randrange(3)]]
         elif tier == "quick":
             ops = rnd.sample(ops[:3], 1) + ops[3:] if v["kind"] != "uniform" else rnd.sample(ops, 2)
+            if rnd.random() < 0.5:
+                ops.append(far)
+        else:
+            ops.append(far)
         nodes = node_set(U, p, outside=False)
         if tier == "quick":
             nodes = nodes[::3] + nodes[-1:]
@@ -164,11 +170,17 @@ def impl(case):
             nodes1 = [u * arg for u in nodes]
         else:
             nodes1 = [(u - U[0]) / (U[-1] - U[0]) for u in nodes]
-        f1 = Function(kv2)
-        c1 = Curve(kv2, P)
         out["nodes1"] = out_nums(nodes1)
-        out["vals1"] = [out_nums(list(f1(u))) for u in nodes1]
-        out["cv1"] = [out_num(c1(u)) for u in nodes1]
+
+        def after():
+            f1 = Function(kv2)
+            c1 = Curve(kv2, P)
+            return [[out_nums(list(f1(u))) for u in nodes1], [out_num(c1(u)) for u in nodes1]]
+        a = capture(after)
+        if "ok" in a:
+            out["vals1"], out["cv1"] = a["ok"]
+        else:
+            out["after_error"] = a["err"]         # evaluation over the moved vector raised: empty lists fail the comparison in Coq
     else:
         out["state_kept"] = [fs(x) for x in kv2] == case["U"]
     return out
